@@ -123,4 +123,8 @@ example :
 every run; F16 repair), as the command line writer does (`Gen.cliTempFlushedBeforeReturn`). -/
 theorem lib_temp_file_flushed_fact : Gen.libTempFlushedBeforeRewind = true := by decide
 
+/-- The command line refuses chunk sizes that do not fit the 32-bit fields of the dictionary (read
+from cli.rs on every run; F21 repair): the `u32` bounds of `OptsOK` are what the CLI enforces. -/
+theorem cli_sizes_fit_u32_fact : Gen.cliSizesFitU32 = true := by decide
+
 end Bita.Props.C11
